@@ -25,6 +25,10 @@ func genC01Hub(t *rapid.T) Scenario {
 		sc.Ops = append(sc.Ops, knock[0], HubOp{K: "appear", X: 1, Y: 0, WaitMs: w()})
 	}
 	if rapid.IntRange(0, 1).Draw(t, "zeroSeesOne") == 0 {
+		// sometimes over a slow link, so that the user's next operation lands while hub 0's dial is on its way
+		if ms := rapid.SampledFrom([]int{0, 0, 300, 800}).Draw(t, "slowLink"); ms > 0 {
+			sc.Ops = append(sc.Ops, HubOp{K: "slow", X: 0, Y: 1, Ms: ms})
+		}
 		sc.Ops = append(sc.Ops, HubOp{K: "appear", X: 0, Y: 1})
 	}
 	// what the user of hub 0 does: templates that end with trust revoked, or a random sequence
